@@ -36,7 +36,8 @@ def number_value():
 
 @st.composite
 def element_spec(draw, kind, idx):
-    e = {"attr": f"e{idx}", "name": f"E{idx}", "label": draw(label_text), "default": None, "enabled": draw(st.sampled_from([True, True, True, False]))}
+    # INDI names deliberately unrelated to the Python attribute names
+    e = {"attr": f"e{idx}", "name": f"N{idx}X", "label": draw(label_text), "default": None, "enabled": draw(st.sampled_from([True, True, True, False]))}
     if kind == "Text":
         e["default"] = draw(st.none() | short_text)
     elif kind == "Number":
